@@ -5,6 +5,7 @@ package transaction
 
 import (
 	"bytes"
+	"errors"
 	"fmt"
 	"strings"
 	"time"
@@ -55,13 +56,30 @@ func Commit(db objects.Store, rs ref.Store, id uuid.UUID) (commits map[string]*o
 	if err != nil {
 		return nil, err
 	}
+	if tx.Status == ref.TSCommitted {
+		return nil, fmt.Errorf("transaction %s is already committed", id)
+	}
 	m, err := ref.ListTransactionRefs(rs, id)
+	if err != nil {
+		return nil, err
+	}
+	// branches that an earlier, interrupted attempt to commit this transaction
+	// has already moved: their reflog carries the transaction id
+	logs, err := rs.GetTransactionLogs(id)
 	if err != nil {
 		return nil, err
 	}
 	commits = map[string]*objects.Commit{}
 	buf := bytes.NewBuffer(nil)
 	for branch, sum := range m {
+		if rl, ok := logs[ref.HeadRef(branch)]; ok {
+			com, err := objects.GetCommit(db, rl.NewOID)
+			if err != nil {
+				return nil, err
+			}
+			commits[ref.HeadRef(branch)] = com
+			continue
+		}
 		com, err := objects.GetCommit(db, sum)
 		if err != nil {
 			return nil, err
@@ -69,8 +87,10 @@ func Commit(db objects.Store, rs ref.Store, id uuid.UUID) (commits map[string]*o
 		oldSum, err := ref.GetHead(rs, branch)
 		if err == nil {
 			com.Parents = [][]byte{oldSum}
-		} else {
+		} else if errors.Is(err, ref.ErrKeyNotFound) {
 			com.Parents = nil
+		} else {
+			return nil, err
 		}
 		firstLine := ref.FirstLine(com.Message)
 		com.Message = fmt.Sprintf("commit [tx/%s]\n%s", id, com.Message)
@@ -97,6 +117,13 @@ func Commit(db objects.Store, rs ref.Store, id uuid.UUID) (commits map[string]*o
 }
 
 func Discard(rs ref.Store, id uuid.UUID) (err error) {
+	tx, err := rs.GetTransaction(id)
+	if err != nil {
+		return err
+	}
+	if tx.Status == ref.TSCommitted {
+		return fmt.Errorf("cannot discard committed transaction")
+	}
 	if err = ref.DeleteTransactionRefs(rs, id); err != nil {
 		return
 	}
